@@ -1,6 +1,6 @@
 #!/usr/bin/env python3
 """python3 vlib/campaign.py [--only C01,C02] [--retrial]
-Seeded-change campaign: for every /tmp/seed/<ID>/out/<n>/ not yet processed: confirm it independently
+Seeded-change campaign: for every /tmp/seed{,2}/<ID>/out/<n>/ not yet processed: confirm it independently
 (vlib/confirm_seed.py), keep confirmed ones under /verif/seeded/<ID>-<n>/ (patch.diff, demo.rs,
 meta.json), run the checks of the target property (and related ones) against it in isolation
 (vlib/trial.py) and store the verdicts in /verif/seeded/<ID>-<n>/result.json.
@@ -40,7 +40,7 @@ def main():
         only = sys.argv[sys.argv.index("--only") + 1].split(",")
     retrial = "--retrial" in sys.argv
     os.makedirs(os.path.join(ROOT, "seeded"), exist_ok=True)
-    seeds = sorted(glob.glob("/tmp/seed/C*/out/*/patch.diff"))
+    seeds = sorted(glob.glob("/tmp/seed/C*/out/*/patch.diff") + glob.glob("/tmp/seed2/C*/out/*/patch.diff"))
     for pf in seeds:
         d = os.path.dirname(pf)
         pid = d.split("/")[3]
